@@ -489,7 +489,7 @@ func (p *parser) parsePostfixExpression(node Node) Node {
 			if token.Kind != Identifier &&
 				// Operators like "not" and "matches" are valid methods or property names.
 				(token.Kind != Operator || !isValidIdentifier(token.Value)) {
-				p.error("expected name")
+				p.errorAt(token, "expected name")
 			}
 
 			if p.current.Is(Bracket, "(") {
